@@ -70,7 +70,7 @@ func DefaultConfig() Config {
 	return Config{
 		Accounts: 12, Dids: 4, Validators: 2, Balance: 10_000_000, ValTokens: 2_000_000,
 		BlockReward: 0, Baseline: 0, APY: "0.5", HalvingPeriod: 32000000, AdjustPeriod: 2000,
-		VstorThreshold: 3_000_000, ShareThreshold: "0.1", OfflineTrigger: 1 << 40,
+		VstorThreshold: 3_000_000, ShareThreshold: "0.1", OfflineTrigger: 1000000000,
 		MaxPenalty: 10000, PenaltyBase: 1, Salt: 17, SeedMode: "hash", WorldSeed: 1,
 	}
 }
@@ -432,3 +432,63 @@ func (c *Chain) EndAndBegin(withStaking bool) (string, string, string) {
 }
 
 func u64(b []byte) uint64 { return binary.BigEndian.Uint64(b) }
+
+// ratio parses a decimal string such as "0.1" into numerator/denominator.
+func ratio(dec string) (int64, int64) {
+	num, den := int64(0), int64(1)
+	seenDot := false
+	for _, r := range dec {
+		if r == '.' {
+			seenDot = true
+			continue
+		}
+		if r < '0' || r > '9' {
+			continue
+		}
+		num = num*10 + int64(r-'0')
+		if seenDot {
+			den *= 10
+		}
+	}
+	return num, den
+}
+
+// SpecConfig is the constant record the TLA+ specification reads (genesis line "cfg").
+func (c *Chain) SpecConfig() map[string]interface{} {
+	// every named account in bech32 address order (the KV order of stores keyed by address)
+	type na struct{ n, a string }
+	var all []na
+	for _, a := range c.Accs {
+		all = append(all, na{a.Name, a.Addr.String()})
+	}
+	for _, v := range c.Vals {
+		all = append(all, na{v.Owner.Name, v.Owner.Addr.String()})
+	}
+	sort.Slice(all, func(i, j int) bool { return all[i].a < all[j].a })
+	accs := []string{}
+	for _, x := range all {
+		accs = append(accs, x.n)
+	}
+	datas := []string{}
+	for i := 1; i <= 12; i++ {
+		datas = append(datas, fmt.Sprintf("D%d", i))
+	}
+	dids := []string{}
+	for _, d := range c.Dids {
+		dids = append(dids, d.Name)
+	}
+	vals := []string{}
+	for _, v := range c.Vals {
+		vals = append(vals, v.Name)
+	}
+	sn, sd := ratio(c.Cfg.ShareThreshold)
+	an, ad := ratio(c.Cfg.APY)
+	return map[string]interface{}{
+		"accs": accs, "datas": datas, "didOrder": dids, "vals": vals,
+		"blockReward": c.Cfg.BlockReward, "baseline": c.Cfg.Baseline, "apyNum": an, "apyDen": ad,
+		"halvingPeriod": c.Cfg.HalvingPeriod, "adjustPeriod": c.Cfg.AdjustPeriod,
+		"vstorThreshold": c.Cfg.VstorThreshold, "shareNum": sn, "shareDen": sd,
+		"offlineTrigger": c.Cfg.OfflineTrigger, "salt": c.Cfg.Salt, "seedMode": c.Cfg.SeedMode,
+		"fishmen": c.Cfg.Fishmen, "maxPenalty": c.Cfg.MaxPenalty,
+	}
+}
